@@ -136,21 +136,28 @@ def check_transition(hist, op, cfg):
     case = {"config": list(cfg), "history": list(full)}
     if op in FAIL_OPS:
         # the rejected call: an error, and the object is exactly what it was before the call
-        live, obs_live = build(full, cfg)
-        before, _ = build(hist, cfg)
+        live, _ = build(hist, cfg)
+        key_before = key(live)
+        d_b = {k_: (v_.copy() if isinstance(v_, np.ndarray) else v_) for k_, v_ in vars(live).items()}
+        obs_live = [apply(live, op, cfg)]  # the SAME object before and after the rejected call
         out = []
         if obs_live[-1][0] != "raise":
             out.append(V("rejected-simulate/accepted", f"after {hist}, simulate with a schedule one entry short was accepted",
                          case=case))
-        elif key(live) != key(before):
-            d_l, d_b = vars(live), vars(before)
-            changed = sorted(k_ for k_ in set(d_l) | set(d_b) if not history.same(d_l.get(k_), d_b.get(k_)))
+        elif key(live) != key_before:
+            d_l = vars(live)
+            changed = sorted(k_ for k_ in set(d_l) | set(d_b) if history.canon_value(d_l.get(k_)) != history.canon_value(d_b.get(k_)))
             out.append(V("rejected-simulate/left-a-trace", f"after {hist}, the rejected simulate (schedule one entry short) "
                          f"raised {obs_live[-1][1]} but changed the object: {changed} differ from before the call - later "
                          "results would mix two runs", case=case))
         return out
     full_all = full
     full = [o for o in full if o not in FAIL_OPS]  # rejected calls leave no trace: the reference never makes them
+    last_sim = max((i for i, o in enumerate(full) if o in SIM_OPS), default=-1)
+    if op not in SIM_OPS and op not in SET_OPS and any(o in SET_OPS for o in full[last_sim + 1:]):
+        # a read after a field was reassigned but before the next simulate: the stored run belongs to the old fields
+        # and the statement ("results reflect the most recent simulation") says nothing about which scale applies
+        return []
     sims = [i for i, o in enumerate(full) if o in SIM_OPS]
     k = sims[-1] if sims else 0
     live, obs_live = build(full_all, cfg)
